@@ -93,6 +93,8 @@ struct Elem {
   double z() const { return d[2]; }
   double met() const { return d[0]; }
   double mpx() const { return d[1]; }
+  float fpt() const { return float(d[0]); }  // a single-precision getter (declared through metadata as float)
+  float fm() const { return float(d[3]) * 0.5f; }
   int nTrk() const { return i[0]; }
   int charge() const { return i[1]; }
   unsigned int runNumber() const { return 300000u + unsigned(i[0] + 1); }
